@@ -40,6 +40,13 @@ fn hostile_docs() -> Vec<Value> {
         json!([["a", "b"], ["c"]]),
         json!({"a": "1", "b": "abc", "c": [], "d": {}, "e": false}),
     ];
+    // scalar zoo: every built-in is called as f(@) on each of these
+    for z in ["", " ", "-", " - ", "-\n", "+", ".", "e", "-e1", "1e", "1e+", "0x", "\"", "[", "{", "nul", "tru", "\u{0}", "\u{10FFFF}", "a\u{301}", "\r\n"] {
+        v.push(Value::String(z.to_string()));
+    }
+    for z in [json!(0), json!(-0.0), json!(-1), json!(0.5), json!(-0.5), json!(1e-320), json!(9007199254740993u64), json!(true), json!(false)] {
+        v.push(z);
+    }
     // a deep document at the edge of what the JSON reader accepts
     let mut deep = json!(1);
     for i in 0..120 {
@@ -226,9 +233,43 @@ fn run_case(rep: &mut Report, expr: &str, docs: &[Value], family: &str, ndocs: u
     }
 }
 
+static CASE_STARTED_MS: std::sync::atomic::AtomicU64 = std::sync::atomic::AtomicU64::new(0);
+
+/// Early warning only: when one case has been running for 20 s of wall clock the
+/// worker aborts so that the orchestrator can name the culprit quickly; the
+/// VERDICT is then taken by re-running that case alone under a CPU budget.
+fn spawn_watchdog() {
+    let t0 = std::time::Instant::now();
+    CASE_STARTED_MS.store(1, std::sync::atomic::Ordering::SeqCst);
+    std::thread::spawn(move || loop {
+        std::thread::sleep(std::time::Duration::from_millis(500));
+        let started = CASE_STARTED_MS.load(std::sync::atomic::Ordering::SeqCst);
+        let now = t0.elapsed().as_millis() as u64 + 1;
+        if started > 0 && now > started + 20_000 {
+            eprintln!("WATCHDOG: one case has been running for more than 20 s of wall clock");
+            std::process::abort();
+        }
+    });
+    // the marker closure below refreshes CASE_STARTED_MS through this clock
+    CLOCK.with(|c| *c.borrow_mut() = Some(t0));
+}
+
+thread_local! {
+    static CLOCK: std::cell::RefCell<Option<std::time::Instant>> = std::cell::RefCell::new(None);
+}
+
+fn touch_case_clock() {
+    CLOCK.with(|c| {
+        if let Some(t0) = *c.borrow() {
+            CASE_STARTED_MS.store(t0.elapsed().as_millis() as u64 + 1, std::sync::atomic::Ordering::SeqCst);
+        }
+    });
+}
+
 pub fn run(args: &Args) {
     let mut rep = Report::new("C05");
     let docs = hostile_docs();
+    spawn_watchdog();
     let logpath = args.kv.get("log").cloned();
     let skip: Vec<u64> = args
         .kv
@@ -243,6 +284,7 @@ pub fn run(args: &Args) {
             .expect("open log")
     });
     let mut mark = |tag: &str, i: u64| {
+        touch_case_clock();
         if let Some(f) = log.as_mut() {
             let _ = f.write_all(format!("{} {}\n", tag, i).as_bytes());
         }
